@@ -132,7 +132,11 @@ fn encoder_case() -> BoxedStrategy<Case> {
 }
 
 fn bad_pattern() -> impl Strategy<Value = String> {
-    prop_oneof![Just("1,2".to_string()), Just("1,,0".to_string()), Just("a".to_string()), Just("1,0,".to_string()), Just(",1".to_string()), Just("1 ,0".to_string()), Just("1;0".to_string()), Just("true".to_string()), Just("01".to_string()), Just(" ".to_string()), "[01,x ]{1,6}".prop_filter("must be malformed", |s| !s.is_empty() && !s.split(',').all(|t| t == "0" || t == "1"))]
+    // malformed under any reading of "comma-separated 0/1 list": a symbol that is neither 0, 1, comma
+    // nor white space, or no 0/1 at all. (Spellings that differ from a well-formed list only in white
+    // space or empty elements - "1,0,", "1 ,0", "01" - are refused today, but a more tolerant parser
+    // would not make them malformed; they are not judged.)
+    prop_oneof![Just("1,2".to_string()), Just("a".to_string()), Just("1;0".to_string()), Just("true".to_string()), Just("x".to_string()), Just("2".to_string()), Just("1,0,x".to_string()), Just("-1".to_string()), Just(",".to_string()), Just(",,".to_string()), "[01,x ]{1,6}".prop_filter("must be malformed", |s| s.contains('x'))]
 }
 
 fn bad_case() -> BoxedStrategy<Case> {
